@@ -766,7 +766,7 @@ impl Prop for C04 {
         "C04"
     }
     fn rule(&self) -> &'static str {
-        "generated headers (versions 2-5, min_inst_len 1-255, max_ops 1-255, line_base -128..127, line_range 1-255, opcode_base 1-255 with arbitrary lengths for non-standard opcodes, v5 directory/file entry formats with 1-7 content types in any order and every supported path/number form, v2-4 tables, header padding, non-zero section offset) x generated multi-sequence programs over the full opcode set (special opcodes incl. all values, every standard opcode, unknown standard/extended opcodes, define_file, padded extended ops, boundary operands) kept well-formed (set_address non-decreasing, below the tombstone range); second mode: all 256 opcode byte values after a generated prefix per header; third mode: arbitrary bytes behind a valid header (validity clauses + model agreement where defined); fourth mode: generated programs with tombstoned regions (set_address to -1/-2 or backwards, register-setting and row-emitting operations inside the region, a new valid address afterwards): rows equal the state machine under gimli's documented suppression policy (address and op_index frozen, rows withheld, every other register - flags, discriminator, line, file, isa - evolving and reset as the state machine says). Oracle: line-number state machine (linemodel.rs): rows on every accessor, header fields, directory/file tables with version-dependent index bases, sequences() bounds, resume_from in reverse and forward order. Non-trivial = (>=2 sequences or >=10 rows) and one of {max_ops>1, opcode_base!=13, unknown opcode, v5 format with >=3 content types}; distinct by choice string."
+        "generated headers (versions 2-5, min_inst_len 1-255, max_ops 1-255, line_base -128..127, line_range 1-255, opcode_base 1-255 with arbitrary lengths for non-standard opcodes, v5 directory/file entry formats with 1-7 content types in any order and every supported path/number form, v2-4 tables, header padding, non-zero section offset) x generated multi-sequence programs over the full opcode set (special opcodes incl. all values, every standard opcode, unknown standard/extended opcodes, define_file, padded extended ops, boundary operands) kept well-formed (set_address non-decreasing, below the tombstone range); second mode: all 256 opcode byte values after a generated prefix per header; third mode: arbitrary bytes behind a valid header (validity clauses + model agreement where defined); fourth mode: generated programs with tombstoned regions (set_address to -1/-2 or backwards, register-setting and row-emitting operations inside the region, a new valid address afterwards): rows equal the state machine under gimli's documented suppression policy (address and op_index frozen, rows withheld, every other register - flags, discriminator, line, file, isa - evolving and reset as the state machine says). Oracle: line-number state machine (linemodel.rs): rows on every accessor, header fields, directory/file tables with version-dependent index bases, sequences() bounds, resume_from in reverse and forward order. Non-trivial = (>=2 sequences or >=10 rows) and one of {max_ops>1, opcode_base!=13, unknown opcode, v5 format with >=3 content types}; distinct by choice string. Later additions: strp_sup forms in version 5 entry formats; LineRow::file(header) on every row; directory_entry_format; DW_LNE_define_file inside tombstoned stretches and the file table after runs on arbitrary input; operation advances next to 2^64."
     }
     fn assumptions(&self) -> Vec<&'static str> {
         vec![
